@@ -200,7 +200,11 @@ def run_random_case(ctx, kind_, idx):
                 wv = Weaver(x.copy(), y.copy())
                 if rng.integers(0, 2):
                     wv.shift_x(float(rng.normal(0, 3))).scale_y(2.0)
-                if mode == "weaver_reshaped":
+                if mode == "weaver_reshaped" and len(x) >= 4 and rng.integers(0, 3) == 0:
+                    # resampled onto as many, equally spaced points: same length and same ends as the reference, another grid
+                    wv.interpolate(n=len(x), method=["linear", "constant", "cubic"][int(rng.integers(0, 3))])
+                    info["resampled_to_the_same_length"] = True
+                elif mode == "weaver_reshaped":
                     n = int(rng.choice([2, 3, 5]))
                     wv.recreate_from_average(n, rfa_class=R.cls(R.ALL[int(rng.integers(0, 6))]))
                     if rng.integers(0, 2) and len(x) >= 4:
